@@ -263,7 +263,10 @@ def check_case(case):
             want_window = hp if hp.any() else np.ones(len(hp), dtype=bool)
             if not np.array_equal(np.asarray(obj.valid_window_boolean_mask), want_window):
                 raise Violation(f"step {step}: {name}: valid_window mask {np.asarray(obj.valid_window_boolean_mask).tolist()}, expected {want_window.tolist()}")
-            pfs = np.asarray(obj.peak_frequencies)
+            raw_pf = obj.peak_frequencies
+            pfs = np.array(raw_pf, dtype=float, copy=True)
+            if isinstance(raw_pf, np.ndarray) and raw_pf.flags.writeable and raw_pf.ndim == 1:
+                raw_pf[...] = -1.0           # returned arrays belong to the caller; scribbling on them must not change later answers
             want = np.array([float(singles[i].peak_frequency) for i in order if has_peak[i]])
             if not (len(pfs) == len(want) and np.array_equal(pfs, want)):
                 raise Violation(f"step {step}: {name}.peak_frequencies = {pfs.tolist()} but the windows with a peak in range {tuple(rng)} have {want.tolist()}")
@@ -272,8 +275,11 @@ def check_case(case):
             if name == "HvsrAzimuthal" and not any(has_peak):
                 continue    # azimuthal statistics need >= 1 accepted window per azimuth (C11's domain)
             for dist in ("lognormal", "normal"):
-                mc = np.asarray(obj.mean_curve(dist), dtype=float)
+                raw_mc = obj.mean_curve(dist)
+                mc = np.array(raw_mc, dtype=float, copy=True)
                 mc = mc[::-1] if desc else mc
+                if isinstance(raw_mc, np.ndarray) and raw_mc.flags.writeable:
+                    raw_mc[...] = -1.0
                 try:
                     mf, ma = sut(obj.mean_curve_peak, dist, allow=(ValueError,), what=f"{name}.mean_curve_peak")
                     mf, ma = float(mf), float(ma)
